@@ -2,7 +2,7 @@
 HARNESSES = [
     COMMON["aead"]("gcm12_open", 1, [(24, "quick"), (25, "quick"), (40, "quick"), (0, "thorough"), (16, "thorough")]),
     COMMON["aead"]("gcm13_open", 3, [(16, "quick"), (17, "quick"), (40, "quick")]),
-    COMMON["dec12"]("cbc_unpad", ["C02"], COMMON["dec12_cases"](64, 40, dtls_only=("dtls10", "dtls12n")) + COMMON["dec12_cases"](96, 56, tier="thorough")),
+    COMMON["dec12"]("cbc_unpad", ["C02"], COMMON["dec12_cases"](64, 40, dtls_only=("dtls10", "dtls12n")) + COMMON["dec12_cases"](96, 40, tier="thorough", dtls_only=("dtls10n", "dtls12"))),
     COMMON["dec13"]("tls13_inner", ["C02"], ns=((48, "quick"), (96, "thorough"))),
 ]
 PROPERTY = dict(level='model_checking',
